@@ -147,6 +147,13 @@ def main() -> None:
     if cfg.subprocess:
         cfg.subprocess_if_recommended = False
     config.configuration = cfg
+    if sc.get("foreign_global"):
+        # library use: the process-wide configuration of the master is a different object than the task's
+        import copy
+
+        glob = copy.deepcopy(cfg)
+        glob.stopping.maximum_search_time = 987654
+        config.configuration = glob
 
     log: dict = {"starts": [], "adjusts": [], "restart_returns": [], "result": None, "pids": []}
     current = {"proc": None}
